@@ -397,21 +397,38 @@ def closure_and_bound(facts, res, fns):
         tbf.link_parents(body)
         # level loop
         lvl = [f for f in walk(body) if f.get("k") == "ForStmt" and fm.is_level_loop(f)]
-        if len(lvl) != 1:
-            raise AnalysisBroken("%s: %d level loops (1 confirmed by reading)" % (fn["qname"], len(lvl)))
-        lo, hi, d = fm.loop_interval(lvl[0])
-        res.instance(R4, "%s levels" % fn["qname"], facts.loc(lvl[0]), "[%s, %s] %s" % (lo, hi, d))
-        n4 += 1
-        if str(lo) != "0" or str(hi).replace(" ", "") != "H-2" or d != "down":
-            res.violation(R4, tbf.rel(facts.path_of(lvl[0])), fn["qname"], "levels", lvl[0]["l"][1], "upper levels are built over [%s, %s] %s, not from H-2 down to 0: a level is missing or built before the level it derives from" % (lo, hi, d))
+        if len(lvl) == 2:
+            # the grouping-mode test hoisted out of the level loop: one level loop per mode, on the two sides of one branch
+            anc0 = [a_ for a_ in tbf.ancestors(lvl[0]) if a_.get("k") == "IfStmt"]
+            anc1 = [a_ for a_ in tbf.ancestors(lvl[1]) if a_.get("k") == "IfStmt"]
+            common = [a_ for a_ in anc0 if any(a_ is b_ for b_ in anc1)]
+            excl = False
+            for i_ in common:
+                br = [y for y in kids(i_) if y.get("k") != "DeclStmt"][1:]
+                side = [[any(x is l_ for x in walk(b_)) for b_ in br] for l_ in lvl]
+                if len(br) == 2 and side[0] != side[1]:
+                    excl = True
+            if not excl:
+                raise AnalysisBroken("%s: 2 level loops that are not the two sides of one branch" % fn["qname"])
+        elif len(lvl) != 1:
+            raise AnalysisBroken("%s: %d level loops (1, or 1 per grouping mode, confirmed by reading)" % (fn["qname"], len(lvl)))
+        for lv_ in lvl:
+            lo, hi, d = fm.loop_interval(lv_)
+            res.instance(R4, "%s levels@%d" % (fn["qname"], lv_["l"][1]) if len(lvl) > 1 else "%s levels" % fn["qname"], facts.loc(lv_), "[%s, %s] %s" % (lo, hi, d))
+            n4 += 1
+            if str(lo) != "0" or str(hi).replace(" ", "") != "H-2" or d != "down":
+                res.violation(R4, tbf.rel(facts.path_of(lv_)), fn["qname"], "levels", lv_["l"][1], "upper levels are built over [%s, %s] %s, not from H-2 down to 0: a level is missing or built before the level it derives from" % (lo, hi, d))
         # pushes of parents
         pushes = []
-        for c in walk(lvl[0]):
-            if c.get("k") in ("CallExpr", "CXXMemberCallExpr") and tbf.callee_name(c) in ("push_back", "emplace_back"):
-                b = strip(tbf.call_base(c)) if tbf.call_base(c) is not None else None
-                a = tbf.call_args(c)
-                if b is not None and b.get("k") == "DeclRefExpr" and b.get("dk") == "Var" and len(a) == 1 and "getParentIndex" in fm.origin(a[0]):
-                    pushes.append(c)
+        loop_of = {}
+        for lv_ in lvl:
+            for c in walk(lv_):
+                if c.get("k") in ("CallExpr", "CXXMemberCallExpr") and tbf.callee_name(c) in ("push_back", "emplace_back"):
+                    b = strip(tbf.call_base(c)) if tbf.call_base(c) is not None else None
+                    a = tbf.call_args(c)
+                    if b is not None and b.get("k") == "DeclRefExpr" and b.get("dk") == "Var" and len(a) == 1 and "getParentIndex" in fm.origin(a[0]):
+                        pushes.append(c)
+                        loop_of[id(c)] = lv_
         if len(pushes) != 2:
             raise AnalysisBroken("%s: %d parent-index appends in the level loop (one per grouping mode; 2 confirmed by reading)" % (fn["qname"], len(pushes)))
         for c in pushes:
@@ -425,8 +442,9 @@ def closure_and_bound(facts, res, fns):
                 continue
             # the loops around the append: range-for over the groups of L+1, counted loop over its cells up to getNbCells()
             loops = []
+            mylvl = loop_of[id(c)]
             p = c.get("_p")
-            while p is not None and p is not lvl[0]:
+            while p is not None and p is not mylvl:
                 if p.get("k") in ("ForStmt", "CXXForRangeStmt", "WhileStmt"):
                     loops.append(p)
                 p = p.get("_p")
@@ -479,7 +497,7 @@ def closure_and_bound(facts, res, fns):
                     if ok:
                         # the reference value must be fresh at every level: the last index of level L+1's parents says nothing about level L,
                         # and a stale value equal to the first parent of the next level drops that parent (and with it the whole level above a lone cell)
-                        lbody = lvl[0]["c"][3]
+                        lbody = mylvl["c"][3]
                         chain = set(id(a_) for a_ in tbf.ancestors(c))
                         fresh = any(x is decl[0] for x in walk(lbody))
                         if not fresh:
@@ -500,7 +518,7 @@ def closure_and_bound(facts, res, fns):
                               "the guard `%s` does not compare the value appended (`%s`) with the value appended last: parents are duplicated or dropped" % (gt[:100], val[:80]))
         # block-size bound: a flush under size(buffer) == this.nbElementsPerBlock next to the append of block mode
         thr = []
-        for i in walk(lvl[0]):
+        for i in [i_ for lv_ in lvl for i_ in walk(lv_)]:
             if i.get("k") == "IfStmt":
                 c0 = i["c"][-3] if len(i["c"]) >= 3 else i["c"][0]
                 o = fm.origin(c0).replace(" ", "")
@@ -531,7 +549,7 @@ def closure_and_bound(facts, res, fns):
         if not arg or arg[0] not in init_txt:
             res.violation(R3, tbf.rel(facts.path_of(ct)), ct["qname"], "block-size-member", ct["l"][1], "the tree's block size member is initialised from `%s`, not from the constructor's block-size argument" % init_txt[:100])
         # the threshold must sit inside the branch that appended (so that it is evaluated after each append)
-        inside = any(any(x is i for x in walk(g2)) for g2 in walk(lvl[0]) if g2.get("k") == "IfStmt" and g2 is not i and any(x in pushes for x in walk(g2)))
+        inside = any(any(x is i for x in walk(g2)) for lv_ in lvl for g2 in walk(lv_) if g2.get("k") == "IfStmt" and g2 is not i and any(x in pushes for x in walk(g2)))
         if not inside:
             res.violation(R3, tbf.rel(facts.path_of(i)), fn["qname"], "threshold-place", i["l"][1], "the size test is not evaluated after each append")
         n3 += 1
@@ -715,6 +733,8 @@ def sorter_split(facts, res):
                           "particles are sorted by a derived key `%s`: a leaf index may use all 63 bits (Dim x (height-1) <= 63), so shifting / scaling it drops its high bits on deep trees "
                           "and the order of the keys is no longer the order of the leaf indices" % facts.ntext(shifted)[:90])
             return
+        if an and packed_key(facts, cls, ctor, body, an, srt, res, R5):
+            return
         raise AnalysisBroken("%s: particles are sorted without a comparator and the sorted sequence '%s' is not the (leaf index, position) pair array: re-confirm by reading" % (cls, an))
     ret = [r for r in walk(lam[0]) if r.get("k") == "ReturnStmt"]
     key = None
@@ -761,6 +781,74 @@ def sorter_split(facts, res):
     at = facts.ntext(tbf.body(acc))
     if not re.search(r"return%s\[\w+\]\.%s;" % (m.group(1), m.group(2)), at):
         res.violation(R5, tbf.rel(facts.path_of(acc)), acc["qname"], "leaf-accessor", acc["l"][1], "getSpacialIndexForLeaf returns `%s`, not the key the leaves were cut on" % at[:80])
+
+
+def packed_key(facts, cls, ctor, body, an, srt, res, R5):
+    """a comparator-less sort of integer keys: the key stored for a particle is evaluated over bit provenance (rules/bitdep.py) with the
+    leaf index as a 63-bit input and anything else as another input.  Sorting the keys sorts the particles by leaf index iff every bit of
+    the index (bits 0..62: Dim x (height-1) may reach 63) is copied into the key, in the same relative order, above every other bit.
+    Returns True when a verdict (instance or violation) was produced."""
+    import bitdep
+    from bitdep import Bits
+    stores = [x for x in walk(body) if x.get("k") == "BinaryOperator" and x.get("op") == "=" and facts.ntext(kids(x)[0]).startswith(an + "[")]
+    if len(stores) != 1:
+        return False
+    E = kids(stores[0])[1]
+    if not any(y.get("k") in ("CallExpr", "CXXMemberCallExpr") and tbf.callee_name(y) == "getIndexFromPosition" for y in walk(E)):
+        return False
+
+    class KeyInterp(bitdep.Interp):
+        def eval(self, n, env):
+            m = strip(n)
+            if m.get("k") in ("CallExpr", "CXXMemberCallExpr") and tbf.callee_name(m) == "getIndexFromPosition":
+                return Bits.input("index", 63)
+            if m.get("k") == "DeclRefExpr" and m.get("did") not in env and m.get("name") not in self.consts and m.get("dk") in ("Var", "ParmVar"):
+                return Bits.input("other:" + str(m.get("name")), 63)
+            return bitdep.Interp.eval(self, n, env)
+    consts = {}
+    it = KeyInterp(facts, consts, cls=cls)
+    for st in (facts.cls(cls) or {}).get("statics", []):
+        if st.get("c"):
+            try:
+                v = it.eval(st["c"][0], {})
+                if isinstance(v, int):
+                    consts[st["name"]] = v
+            except AnalysisBroken:
+                pass
+    try:
+        out = it.eval(E, {})
+    except AnalysisBroken as e:
+        raise AnalysisBroken("%s: the sort key `%s` cannot be evaluated over bit provenance (%s)" % (cls, facts.ntext(E)[:80], str(e)[:120]))
+    if not isinstance(out, Bits):
+        return False
+    pos = {}
+    others = []
+    for j in range(64):
+        b = out.b[j]
+        if isinstance(b, tuple) and b[1] and len(b[0]) == 1:
+            (src, k), = tuple(b[0])
+            if src == "index":
+                pos.setdefault(k, j)
+            else:
+                others.append(j)
+        elif b not in (0, 1):
+            others.append(j)
+    present = set()
+    for j in range(64):
+        b = out.b[j]
+        if isinstance(b, tuple):
+            present |= {k for (src, k) in b[0] if src == "index"}
+    missing = [k for k in range(63) if k not in present]
+    f = tbf.rel(facts.path_of(stores[0]))
+    res.instance(R5, "sort key (packed)", facts.loc(stores[0]), "key `%s`: index bits kept %d of 63%s" % (facts.ntext(E)[:70], 63 - len(missing), "" if missing else ", in order, above all other bits" ))
+    if missing:
+        res.violation(R5, f, ctor["qname"], "sort-key-packed", stores[0]["l"][1],
+                      "particles are sorted by the packed key `%s`, which does not contain bit %d of the leaf index (nor %d higher bits): a leaf index uses up to Dim x (height-1) <= 63 bits, so on trees with more than %d index bits two different leaves get the same key prefix - their particles are merged into one leaf whose box does not contain them" % (facts.ntext(E)[:80], missing[0], len(missing) - 1, missing[0]))
+        return True
+    order_ok = all(k in pos for k in range(63)) and all(pos[k] < pos[k + 1] for k in range(62)) and (not others or max(others) < pos[0])
+    if not order_ok:
+        res.violation(R5, f, ctor["qname"], "sort-key-packed-order", stores[0]["l"][1], "the packed key `%s` does not keep the bits of the leaf index in order above every other bit: the order of the keys is not the order of the leaf indices" % facts.ntext(E)[:80])
+    return True
 
 
 def run(res, tier):
